@@ -29,12 +29,12 @@ def _disp(d):
 def rows(tier):
     """mesh rows: dim, coarse cells per axis, level bound (cells on level L are never marked)"""
     R = []
-    def add(name, k, L, ps, disps, mark_trunc=(False,), maxmark=None, mult=None):
+    def add(name, k, L, ps, disps, mark_trunc=(False,), maxmark=None, mult=None, breaks=None):
         for p in ps:
             for d in disps:
                 for mt in mark_trunc:
                     R.append({"row": name, "k": list(k), "L": L, "p": list(p) if isinstance(p, (list, tuple)) else [p] * len(k),
-                              "disparity": d, "mark_truncate": mt, "maxmark": maxmark, "mult": mult})
+                              "disparity": d, "mark_truncate": mt, "maxmark": maxmark, "mult": mult, "breaks": breaks})
     if tier == "quick":
         add("1D-k3-L2", (3,), 2, (1, 2, 3), ("inf", 1, 2), (False, True))
         add("1D-k2-L3", (2,), 3, (1, 2), ("inf", 1, 2))
@@ -43,7 +43,13 @@ def rows(tier):
         # coarse knot vectors with repeated interior knots (multiplicity 2)
         add("1D-k3-L2-m2", (3,), 2, (2, 3), ("inf", 1), mult=[2])
         add("2D-2x2-L1-m2", (2, 2), 1, ((2, 3),), ("inf",), mult=[2, 1])
+        # the same degree and number of dofs per direction, but different (graded) breakpoints
+        add("2D-2x2-L1-graded", (2, 2), 1, (2,), ("inf", 1), breaks=[[0.0, 0.5, 1.0], [0.0, 0.3, 1.0]])
+        add("1D-k3-L2-graded", (3,), 2, (2,), ("inf",), breaks=[[0.0, 0.2, 0.7, 1.0]])
     else:
+        add("2D-2x2-L1-graded", (2, 2), 1, (1, 2, 3), ("inf", 1), (False, True), breaks=[[0.0, 0.5, 1.0], [0.0, 0.3, 1.0]])
+        add("2D-2x1-L2-graded", (2, 1), 2, (2,), ("inf", 1), breaks=[[0.0, 0.35, 1.0], [-1.0, 2.0]])
+        add("1D-k3-L2-graded", (3,), 2, (2, 3), ("inf", 1), breaks=[[0.0, 0.2, 0.7, 1.0]])
         add("1D-k3-L2-m2", (3,), 2, (2, 3, 4), ("inf", 1, 2), (False, True), mult=[2])
         add("1D-k3-L2-m3", (3,), 2, (3,), ("inf", 1), mult=[3])
         add("2D-2x1-L2-m2", (2, 1), 2, ((2, 3), (3, 2)), ("inf", 1), mult=[2, 1])
@@ -75,9 +81,13 @@ def setup(cfg):
     from pyiga import bspline, hierarchical
     _G.clear()
     mult = cfg.get("mult") or [1] * len(cfg["k"])
-    kvs = tuple(bspline.make_knots(p, 0.0, 1.0, k, mult=m) for p, k, m in zip(cfg["p"], cfg["k"], mult))
-    _G.update(cfg=cfg, kvs=kvs, H=hierarchical, model=hmodel.HModel(cfg["p"], cfg["k"], mults=mult),
-              disp=_disp(cfg["disparity"]))
+    model = hmodel.HModel(cfg["p"], cfg["k"], mults=mult, breaks=cfg.get("breaks"))
+    if cfg.get("breaks"):
+        # non-uniform coarse breakpoints: the coarse knot vectors are built from the model's level-0 knots
+        kvs = tuple(bspline.KnotVector(np.array(model.knots(0, d), dtype=float), p) for d, p in enumerate(cfg["p"]))
+    else:
+        kvs = tuple(bspline.make_knots(p, 0.0, 1.0, k, mult=m) for p, k, m in zip(cfg["p"], cfg["k"], mult))
+    _G.update(cfg=cfg, kvs=kvs, H=hierarchical, model=model, disp=_disp(cfg["disparity"]))
 
 
 def marks_of(ev):
